@@ -126,12 +126,16 @@ Proof. exact outgoing_once_proof. Qed.
 Print Assumptions outgoing_once.
 
 (* internal/headers.go: AddHeaders / AddTrailers into an http.Header and ConvertToProtoHeader back:
-   one entry per canonical name, all values in order, the name changed in letter case only *)
-Theorem http_headers : forall prefix hs,
-  let out := convert_to_proto_header (add_headers prefix hs []) in
-  NoDup (map fst out) /\
-  (forall k, md_get out k = some_nonempty (values_under (fun n => canonical_key (prefix ++ n)) k hs)) /\
-  (forall n, lower (canonical_key (prefix ++ n)) = lower prefix ++ lower n).
+   one entry per canonical name, all values in order, the name changed in letter case only; trailer
+   names that differ in letter case only share one key (repair e7bd693) *)
+Theorem http_headers : forall hs,
+  (NoDup (map fst (convert_to_proto_header (add_headers hs []))) /\
+   (forall k, md_get (convert_to_proto_header (add_headers hs [])) k = some_nonempty (values_under canonical_key k hs)) /\
+   (forall n, lower (canonical_key n) = lower n)) /\
+  (NoDup (map fst (convert_to_proto_header (add_trailers hs []))) /\
+   (forall k, md_get (convert_to_proto_header (add_trailers hs [])) k = some_nonempty (values_under trailer_key k hs)) /\
+   (forall n, lower (trailer_key n) = lower trailer_prefix ++ lower n) /\
+   (forall n n', lower n = lower n' -> forallb is_token_char n = true -> trailer_key n = trailer_key n')).
 Proof. exact http_headers_proof. Qed.
 Print Assumptions http_headers.
 
@@ -233,6 +237,10 @@ Proof.
   destruct Hv as [<-|[]]. exists [1; 2; 3]. split; [|reflexivity].
   repeat constructor.
 Qed.
+
+Example ex_trailers_merge :
+  convert_to_proto_header (add_trailers [(bs "x-a", [bs "1"]); (bs "X-A", [bs "2"])] []) = [(bs "Trailer:X-A", [bs "1"; bs "2"])].
+Proof. vm_compute. reflexivity. Qed.
 
 Example ex_percent :
   percent_encode (bs "a%b" ++ [10; 195; 164]) = bs "a%25b%0A%C3%A4" /\
